@@ -151,12 +151,25 @@ namespace pika::util::detail {
                 }
                 else
                 {
-                    destroy();
-                    vptr = f_vptr;
+                    // leave this empty should allocating the new target throw
+                    base_type::reset(get_empty_vtable());
                     buffer = vtable::template allocate<T>(storage, function_storage_size);
                 }
-                // NOLINTNEXTLINE(bugprone-multi-level-implicit-pointer-conversion)
-                object = ::new (buffer) T(std::forward<F>(f));
+                try
+                {
+                    // NOLINTNEXTLINE(bugprone-multi-level-implicit-pointer-conversion)
+                    object = ::new (buffer) T(std::forward<F>(f));
+                    vptr = f_vptr;
+                }
+                catch (...)
+                {
+                    // the old target is gone and the new one was not constructed: release the
+                    // storage without destroying anything and leave this empty
+                    f_vptr->deallocate(buffer, function_storage_size, /*destroy*/ false);
+                    vptr = get_empty_vtable();
+                    object = nullptr;
+                    throw;
+                }
             }
             else { base_type::reset(get_empty_vtable()); }
         }
